@@ -171,10 +171,20 @@ class GenerateWasmVisitor(Visitor.DefaultVisitor):
     def v_BinaryInstruction(self, bi: LinearIR.BinaryInstruction, ctx: Context):
         assert ctx.Code
 
-        if isinstance(bi.Type, LinearIR.IntegerType):
+        # A comparison yields an integer, but it is carried out on the type
+        # of its operands
+        valueType = bi.Type
+        if bi.OpCode in {
+            LinearIR.OpCode.CMP_EQ,
+            LinearIR.OpCode.CMP_LT,
+            LinearIR.OpCode.CMP_GT,
+        }:
+            valueType = bi.Values[0].Type
+
+        if isinstance(valueType, LinearIR.IntegerType):
             operationType = "i32"
-            unsigned = bi.Type.Unsigned
-        elif isinstance(bi.Type, LinearIR.FloatType):
+            unsigned = valueType.Unsigned
+        elif isinstance(valueType, LinearIR.FloatType):
             operationType = "f32"
         else:
             raise RuntimeError(
